@@ -32,7 +32,10 @@ class SyncWorld(World):
     def fresh_value(self):
         self.nval += 1
         t = self.ctx.fresh_int('val')
-        self.ctx.assume(z3.And(t >= 1, t <= 1000, STRLEN(t) >= MIN_STR, STRLEN(t) <= self.max_str))
+        # a value is a non-empty token or the empty string (tags and dependencies are stored as "")
+        from mirsym.models.strings import intern_tok
+        self.ctx.assume(z3.Or(z3.And(t >= 1, t <= 1000, STRLEN(t) >= MIN_STR, STRLEN(t) <= self.max_str),
+                              z3.And(t == intern_tok(''), STRLEN(t) == 0)))
         self.val_terms.append(t)
         return TokStr(t)
 
@@ -169,6 +172,8 @@ class SyncWorld(World):
             if isinstance(t, TokStr):
                 i = model.eval(t.id, model_completion=True).as_long()
                 ln = model.eval(STRLEN(t.id), model_completion=True).as_long()
+                if ln == 0:
+                    return ''
                 return {'id': i, 'len': ln}
             if isinstance(t, NumStr):
                 return str(model.eval(t.v, model_completion=True).as_long()) if is_sym(t.v) else str(t.v)
@@ -234,8 +239,10 @@ def concrete_value(v, model):
     if isinstance(v, NumStr):
         return str(model.eval(v.v, model_completion=True).as_long()) if is_sym(v.v) else str(v.v)
     if isinstance(v, TokStr):
-        return {'id': model.eval(v.id, model_completion=True).as_long(),
-                'len': model.eval(STRLEN(v.id), model_completion=True).as_long()}
+        ln = model.eval(STRLEN(v.id), model_completion=True).as_long()
+        if ln == 0:
+            return ''
+        return {'id': model.eval(v.id, model_completion=True).as_long(), 'len': ln}
     return show(v, model)
 
 
